@@ -24,7 +24,7 @@ COMMON = [P + "facts_ok", P + "engine_is_spec"]
 PROPS = {
  "C01": {
   "module": "Zog.Props.C01",
-  "theorems": COMMON + [P + "C01." + t for t in ["prim_no_issue_sat", "complex_tests_hold", "success_means_every_visit_clean", "visits_only_append", "engine_success_iff", "tested_sat"]],
+  "theorems": COMMON + [P + "C01." + t for t in ["success_means_valid_spec", "success_means_valid", "prim_no_issue_sat", "complex_tests_hold", "success_means_every_visit_clean", "visits_only_append", "engine_success_iff"]],
   "streams": [eng(2500, 150000), eng(2000, 100000, "catch"), eng(2500, 100000, "nearsuccess")],
   "trusted_base": ENGINE_TB, "assumptions": ENGINE_ASSUME,
  },
